@@ -203,6 +203,25 @@ decreasing_by all_goals simp_all <;> omega
 def errArity (name : Bytes) : Value :=
   .error (sb "ERR Incorrect or wrong number of arguments for '" ++ name ++ sb "'. Try COMMAND HELP.")
 
+/-- `numkeys key [key …] LEFT|RIGHT [COUNT n]` (LMPOP, and BLMPOP after its timeout) -/
+def parseLmpop (a : List Bytes) : Option Cmd :=
+  match a with
+  | nk :: r => do
+    let nk ← int? nk
+    -- keys run up to the LEFT|RIGHT token
+    let ks := r.takeWhile fun x => (leftRight x).isNone
+    let rest := r.drop ks.length
+    match rest with
+    | w :: tail =>
+      let left ← leftRight w
+      if ks.isEmpty then none else
+      match tail with
+      | [] => pure (.lmpop nk ks left none)
+      | [t, c] => if lowerB t == sb "count" then (int? c).map fun c => .lmpop nk ks left (some c) else none
+      | _ => none
+    | [] => none
+  | _ => none
+
 /-- grammar-level parse. `none` = the emulator answers the arity/syntax error. -/
 def parseCmd (name : Bytes) (a : List Bytes) : Option Cmd :=
   let n := lowerB name
@@ -277,23 +296,7 @@ def parseCmd (name : Bytes) (a : List Bytes) : Option Cmd :=
      | [s, d, x, y] => (do let x ← leftRight x; let y ← leftRight y; pure (.lmove s d x y))
      | _ => none)
   else if n == sb "rpoplpush" then (match a with | [s, d] => some (.lmove s d false true) | _ => none)
-  else if n == sb "lmpop" then
-    (match a with
-     | nk :: r => do
-       let nk ← int? nk
-       -- keys run up to the LEFT|RIGHT token
-       let ks := r.takeWhile fun x => (leftRight x).isNone
-       let rest := r.drop ks.length
-       match rest with
-       | w :: tail =>
-         let left ← leftRight w
-         if ks.isEmpty then none else
-         match tail with
-         | [] => pure (.lmpop nk ks left none)
-         | [t, c] => if lowerB t == sb "count" then (int? c).map fun c => .lmpop nk ks left (some c) else none
-         | _ => none
-       | [] => none
-     | _ => none)
+  else if n == sb "lmpop" then parseLmpop a
   else if n == sb "hset" || n == sb "hmset" then
     (match a with
      | k :: f :: v :: r => (pairsOf (f :: v :: r)).map fun fvs => .hset k fvs false (n == sb "hmset")
@@ -481,6 +484,9 @@ def parseCmd (name : Bytes) (a : List Bytes) : Option Cmd :=
      | _ => none)
   else if n == sb "brpoplpush" then
     (match a with | [s, d, t] => if isFloatArg t then some (.lmove s d false true) else none | _ => none)
+  else if n == sb "blmpop" then
+    -- with nothing to pop it blocks for its (short) timeout and answers nil, like LMPOP at once
+    (match a with | t :: r => if isFloatArg t then parseLmpop r else none | _ => none)
   else none
 
 /-- commands the emulator knows (`handlerTable`) -/
@@ -500,7 +506,7 @@ def knownCommands : List String :=
 
 /-- commands the model has no semantics for: the driver does not judge their replies and the
     generators keep them away from state (`opaque`) -/
-def unmodelled : List String := ["command", "info", "dump", "restore", "blmpop"]
+def unmodelled : List String := ["command", "info", "dump", "restore"]
 
 /-! ### Sessions and the database table -/
 
